@@ -585,6 +585,10 @@ func (ma *modAnalysis) region(fn *ssa.Function, in map[*ssa.BasicBlock]bool) *mo
 				ms.fresh[md], ms.fresh[mv], ms.fresh[mc] = true, true, true
 			case *ssa.MapUpdate:
 				ma.recordMapWrite(ms, x.Map, in)
+			case *ssa.Send:
+				if _, ok := ma.w.db.Ghosts["sent"]; ok {
+					ms.shape("G_sent").any = true
+				}
 			case ssa.CallInstruction:
 				call := x.Common()
 				if b, ok := call.Value.(*ssa.Builtin); ok {
